@@ -846,10 +846,67 @@ func sortedKeys(m map[string]int) []string {
 // sequence must equal the sent sequence and no error is expected at all.
 type monC06 struct {
 	NopMonitor
+	pos map[int]int // per connection: index in Sent after the last matched PUBLISH
+}
+
+// aligned is the oracle for runs with connection loss: per connection, what
+// ReadSlices returns follows the PUBLISH packets the broker queued on it, in
+// order; the only packets it may pass over are exactly-once retransmissions of a
+// message the application was handed before (the suppressed duplicate). What
+// comes after a skipped BigMessage or a suppressed duplicate must not be lost.
+func (m *monC06) aligned(f *Flow, r *Recv) {
+	w := f.W
+	if r.Conn < 0 || r.Conn >= len(w.AllConns) || f.S == nil || f.S.dead {
+		return
+	}
+	c := w.AllConns[r.Conn]
+	if c.Hostile != nil || c.Gen != w.Gen {
+		return
+	}
+	if m.pos == nil {
+		m.pos = map[int]int{}
+	}
+	for i := m.pos[c.id]; i < len(c.Sent); i++ {
+		sp := &c.Sent[i]
+		if sp.Type != PUBLISH {
+			continue
+		}
+		if sp.Topic == r.Topic {
+			m.pos[c.id] = i + 1
+			w.Probe("return_matches_stream")
+			if r.Big && r.BigSize != len(sp.Payload) {
+				w.Violate("C06", "wrong-size", "big-redelivery", "message %d: BigMessage.Size %d, the broker sent %d payload bytes", r.Idx, r.BigSize, len(sp.Payload))
+			} else if (!r.Big || (r.BigRead && r.BigErr == nil)) && !bytes.Equal(r.Msg, sp.Payload) {
+				w.Violate("C06", "wrong-content", "redelivery", "message %d (%q): the %d bytes returned differ from the %d payload bytes sent on conn%d", r.Idx, trunc(r.Topic, 24), len(r.Msg), len(sp.Payload), c.id)
+			}
+			return
+		}
+		// passed over: legitimate only for a suppressed duplicate
+		suppressed := false
+		if sp.QoS == 2 && sp.Dup {
+			for _, x := range f.Recvs[:r.Idx] {
+				if x.Topic == sp.Topic {
+					suppressed = true
+					w.Probe("duplicate_suppressed")
+					if len(sp.Payload) > f.O.ReadBuf {
+						w.Probe("big_duplicate_suppressed")
+					}
+					break
+				}
+			}
+		}
+		if !suppressed {
+			w.Violate("C06", "passed-over", fmt.Sprintf("q%d", sp.QoS), "conn%d: ReadSlices returned %q although the PUBLISH %q (q%d, id %#04x, %d payload bytes) queued before it on the same connection was never returned (read buffer %d)", c.id, trunc(r.Topic, 24), trunc(sp.Topic, 24), sp.QoS, sp.ID, len(sp.Payload), f.O.ReadBuf)
+			m.pos[c.id] = i + 1
+			return
+		}
+	}
+	w.Violate("C06", "not-in-stream", "recv", "conn%d: ReadSlices returned %q which the broker did not queue on that connection after the previous return", c.id, trunc(r.Topic, 24))
 }
 
 func (m *monC06) Recv(f *Flow, r *Recv) {
 	if !f.StrictInbound {
+		m.aligned(f, r)
 		return
 	}
 	w := f.W
@@ -974,6 +1031,9 @@ func (m *monC07) Wire(f *Flow, c *Conn, p *WirePkt) {
 		}
 		w.Violate("C07", "ack-without-return", what+"-"+typeNames[p.Type], "conn%d: %s written but no message with that identifier was ever returned by ReadSlices", c.id, p.String())
 		return
+	}
+	if r.AckWire == 0 {
+		r.AckWire = w.Steps
 	}
 	first := c.firstByteStep(p.Off)
 	if r.NextInvoke == 0 || r.NextInvoke > first {
